@@ -1338,6 +1338,16 @@ func (sc *serverConn) processFrameFromReader(res readFrameResult) bool {
 		log.Logger.Debug("http2: network error from %v: %v", sc.conn.RemoteAddr(), ev)
 		return false
 	case StreamError:
+		if res.err != nil && ev.StreamID%2 == 1 && ev.StreamID > sc.maxStreamID {
+			// A HEADERS frame whose header block the framer refused has
+			// nevertheless used its stream identifier (RFC 7540 5.1.1): the
+			// stream was opened and is now closed, not idle, and the
+			// identifier must not be accepted again.
+			switch sc.framer.lastReadType {
+			case FrameHeaders, FrameContinuation:
+				sc.maxStreamID = ev.StreamID
+			}
+		}
 		sc.resetStream(ev)
 		return true
 	case goAwayFlowError:
